@@ -1,6 +1,7 @@
 SPECIFICATION Spec
 CONSTANTS
   HistBand = TRUE
+  StrictReassign = FALSE
   MaxSteps = 3
   Rich = FALSE
   Acts = {"tr", "find_pos", "file"}
